@@ -15,6 +15,7 @@ CONSTANTS
     MaxSpans = 3
     IncomingKinds <- MC_IncBoth
     WithLazy = FALSE
+    CtxForms <- MC_Forms
     Emit = TRUE
 VIEW sview
 INVARIANTS InnermostWins NoTrace StackOK FrameIds AmbientIds OneTrace ParentIsEnclosing EventCarriesInnermost IdsDistinct
